@@ -5,12 +5,7 @@ package hessian
 import "reflect"
 
 func vZooTypeMap() map[string]reflect.Type {
-	v := &ZOuter{P: &ZInner{}}
-	t, _ := vExtract(v)
-	t2, _ := vExtract(&ZLists{})
-	for k, x := range t2 {
-		t[k] = x
-	}
+	t, _ := vExtractAll(&ZOuter{P: &ZInner{}}, &ZLists{})
 	return t
 }
 
